@@ -4,6 +4,7 @@ import Driver.CacheP
 import Driver.SfP
 import Gomjml.Core.Cli
 import Driver.ApiP
+import Driver.HtmlP
 /-! Line-protocol driver (E3): first word selects a sub-protocol, one output line per input line.
     Imports only core-only Model/Spec modules so that it links as a `lean_exe`. -/
 open Gomjml
@@ -26,6 +27,8 @@ def handle (line : String) : String :=
   | "cli" :: args => cliHandle args
   | "api" :: args => Driver.ApiP.handle args
   | "pick" :: args => Driver.ApiP.pickHandle args
+  | "layout" :: args => Driver.HtmlP.layoutHandle args
+  | "oracle" :: args => Driver.HtmlP.oracleHandle args
   | _ => "bad-request"
 
 partial def loop (hin hout : IO.FS.Stream) : IO Unit := do
